@@ -39,7 +39,7 @@ TBlock == /\ l <= Len(Trace) /\ Trace[l].ev = "Block" /\ ~Trace[l].refused /\ l'
              /\ led' = e.post
              /\ applied' = applied \cup {e.txs[i].id : i \in 1..Len(e.txs)}
              /\ bad' = bad \cup b
-             /\ Report(b \ bad, l)
+             /\ Report(b, l)
           /\ UNCHANGED reward
 
 \* a crafted block / direct submission that re-offers an already applied transaction, or one signed for another
@@ -47,7 +47,7 @@ TBlock == /\ l <= Len(Trace) /\ Trace[l].ev = "Block" /\ ~Trace[l].refused /\ l'
 TCrafted == /\ l <= Len(Trace) /\ Trace[l].ev = "Crafted" /\ l' = l + 1
             /\ LET e == Trace[l]
                    b == IF \E r \in DOMAIN e.verdicts : e.verdicts[r] = "ok" THEN {"Replay-" \o e.what} ELSE {} IN
-               /\ bad' = bad \cup b /\ Report(b \ bad, l)
+               /\ bad' = bad \cup b /\ Report(b, l)
             /\ UNCHANGED <<led, applied, reward>>
 
 \* a fork switch: the ledger is the one committed at the ancestor; the transactions of the abandoned blocks are
